@@ -119,6 +119,7 @@ def extract_facts() -> dict[str, Any]:
     )
     entries_ok = True
     checks: dict[str, bool] = {}
+    cache_checks: dict[str, bool] = {}
     for f, qual, table, _epn in ENTRY_POINTS:
         body = _norm_fn(trees[f], qual)
         lines = body.splitlines() if body is not None else []
@@ -126,6 +127,11 @@ def extract_facts() -> dict[str, Any]:
         if chk:
             lines = lines[1:]
         checks[f"{f}::{qual}"] = chk
+        # ... or with the same test only in front of a cached run (the cache files are named after the label)
+        cchk = lines[:2] == ["if cache is not None:", f"    _require_unique_index({table})"] and helper_ok
+        if cchk:
+            lines = lines[2:]
+        cache_checks[f"{f}::{qual}"] = cchk
         if "\n".join(lines) != SHAPES[f"{f}::{qual}"]:
             entries_ok = False
     if entries_ok and all(
@@ -144,7 +150,9 @@ def extract_facts() -> dict[str, Any]:
             facts["dups"] = "DupRefuse"
         elif not any(checks[k] for k in dict_keyed):
             facts["dups"] = "DupCollapse"
-    facts["entry_points"] = [_entry_point(trees[f], qual, table, epn, checks[f"{f}::{qual}"]) for f, qual, table, epn in ENTRY_POINTS]
+    facts["entry_points"] = [
+        _entry_point(trees[f], qual, table, epn, checks[f"{f}::{qual}"], cache_checks[f"{f}::{qual}"]) for f, qual, table, epn in ENTRY_POINTS
+    ]
     if all(same(k) for k in SHAPES if k.startswith("simulation.py::")):
         facts["sim_shape"] = "true"
     # workers
@@ -202,12 +210,12 @@ _WORKER_NAMES = {
 }
 
 
-def _entry_point(tree: ast.Module, qual: str, table: str, epn: str, checks: bool) -> str:
+def _entry_point(tree: ast.Module, qual: str, table: str, epn: str, checks: bool, cache_checks: bool) -> str:
     """One row of the entry-point table, read structurally from the function's AST (independent of the shape
-    comparison): default of `worker`, how `res` ends up in the container, how the pool is chosen.
+    comparison): default of `worker`, how `res` ends up in the container, how the pool is chosen, what happens to `y0`.
     Anything unrecognised yields a row that differs from the expected one (fail-closed)."""
     fn = next((n for n in tree.body if isinstance(n, ast.FunctionDef) and n.name == qual), None)
-    bad = f"mkEP {epn} WkParameterScan CList ParByFlag true"  # no expected row looks like this
+    bad = f"mkEP {epn} WkParameterScan CList ParByFlag true Y0Unknown true"  # no expected row looks like this
     if fn is None:
         return bad
     worker = None
@@ -238,7 +246,35 @@ def _entry_point(tree: ast.Module, qual: str, table: str, epn: str, checks: bool
         cont = "CDictOfScans"
     else:
         return bad
-    return f"mkEP {epn} {worker} {cont} {par} {'true' if checks else 'false'}"
+    return f"mkEP {epn} {worker} {cont} {par} {'true' if checks else 'false'} {_y0_policy(fn, calls[0])} {'true' if cache_checks else 'false'}"
+
+
+def _y0_policy(fn: ast.FunctionDef, call: ast.Call) -> str:
+    """How `y0` reaches the rows: `if y0 is not None: model.update_variables(y0)` as a statement of the entry point in front
+    of the fan-out and `y0=None` for the worker (Y0IntoModel), or no such statement and `y0=y0` (Y0ToWorker)."""
+    stmt_of_call = next((i for i, st in enumerate(fn.body) if any(n is call for n in ast.walk(st))), None)
+    if stmt_of_call is None:
+        return "Y0Unknown"
+    writes = [i for i, st in enumerate(fn.body) if ast.unparse(st) == "if y0 is not None:\n    model.update_variables(y0)"]
+    mentions = [
+        i for i, st in enumerate(fn.body)
+        if i != stmt_of_call and i not in writes and any(isinstance(n, ast.Name) and n.id == "y0" for n in ast.walk(st))
+    ]
+    # the task function: partial(_update_parameters_and_initial_conditions, fn=partial(worker, ..., y0=<?>), model=model)
+    task = call.args[0] if call.args else next((k.value for k in call.keywords if k.arg == "fn"), None)
+    inner = None
+    if isinstance(task, ast.Call) and ast.unparse(task.func) == "partial":
+        inner = next((k.value for k in task.keywords if k.arg == "fn"), None)
+    if not (isinstance(inner, ast.Call) and ast.unparse(inner.func) == "partial" and inner.args and ast.unparse(inner.args[0]) == "worker"):
+        return "Y0Unknown"
+    handed = [ast.unparse(k.value) for k in inner.keywords if k.arg == "y0"]
+    if mentions or len(handed) != 1:
+        return "Y0Unknown"
+    if writes and len(writes) == 1 and writes[0] < stmt_of_call and handed == ["None"]:
+        return "Y0IntoModel"
+    if not writes and handed == ["y0"]:
+        return "Y0ToWorker"
+    return "Y0Unknown"
 
 
 def gen() -> dict[str, Any]:
@@ -263,7 +299,7 @@ def gen() -> dict[str, Any]:
 #         "rxn": [[name, fid, [args], [[var, coef]]]]}
 # names are ints (N in Coq): 0 = time, 10.. variables, 20.. parameters, 30.. derived, 40.. reactions, 99 = unknown column
 # case = {"spec", "kind": "tc"|"ss", "tps": [ints], "cols": [names], "rows": [[ints]], "labels": [ints],
-#         "mode": ["seq"] | ["par", workers], "api": "scan"|"mc"}
+#         "mode": ["seq"] | ["par", workers], "api": "scan"|"mc", optional "y0": [[variable name, int]] = the scan's y0 argument}
 
 
 def sname(k: int) -> str:
@@ -362,6 +398,38 @@ def gen_case(rng, thorough: bool) -> dict:
     return {"spec": spec, "kind": kind, "tps": tps, "cols": cols, "rows": rows, "labels": labels, "flavour": flavour}
 
 
+def decorate_case(c: dict, rng2) -> dict:
+    """Second-round inputs, drawn from their OWN stream so that the case stream above stays what it was:
+    (a) a `y0` argument for the scan: 1..all variables (plain or assignment-defined), preferably overlapping the table's
+        initial-value columns (the row must win) and the variables initial assignments read (they must see y0);
+    (b) for steady-state scans (positional container, values as index): duplicate index labels as pd.concat of two
+        tables without ignore_index gives them (0..k-1, 0..n-k-1)."""
+    c = dict(c)
+    spec = c["spec"]
+    var_names = [v[0] for v in spec["vars"]]
+    r = rng2.random()
+    if r < 0.4:
+        col_vars = [k for k in c["cols"] if k in var_names]
+        read_by_ia = [a for _n, v in spec["vars"] + spec["pars"] if v[0] == "IA" for a in v[2] if a in var_names]
+        pick: list[int] = []
+        if col_vars and rng2.random() < 0.7:
+            pick.append(rng2.choice(col_vars))
+        if read_by_ia and rng2.random() < 0.7:
+            pick.append(rng2.choice(read_by_ia))
+        for k in var_names:
+            if rng2.random() < 0.35:
+                pick.append(k)
+        if not pick:
+            pick.append(rng2.choice(var_names))
+        lo = 1 if c["flavour"] == "guard" else -3
+        c["y0"] = [[k, rng2.randint(lo, 3)] for k in dict.fromkeys(pick)]
+    n = len(c["rows"])
+    if c["kind"] == "ss" and n >= 2 and rng2.random() < 0.3:
+        k = rng2.randrange(1, n)
+        c["labels"] = list(range(k)) + list(range(n - k))
+    return c
+
+
 def build_model(spec: dict, override: dict[int, int] | None = None):
     """The model described by spec; `override` replaces values (a FRESH model with exactly a row's values)."""
     from mxlpy import InitialAssignment, Model
@@ -454,13 +522,14 @@ def run_scan(case: dict, mode: list, api: str = "scan", integrator: str = "euler
     model = build_model(case["spec"])
     tab = make_table(case)
     tps = np.array(case["tps"], dtype=float)
+    y0 = {sname(k): float(v) for k, v in case["y0"]} if case.get("y0") is not None else None
 
     def go():
         if api == "mc":
             kw = {"max_workers": mode[1]} if mode[0] == "par" else {"max_workers": None}
             if case["kind"] == "tc":
-                return mc.time_course(model, mc_to_scan=tab, time_points=tps, integrator=integ, **kw)
-            return mc.steady_state(model, mc_to_scan=tab, integrator=integ, **kw)
+                return mc.time_course(model, mc_to_scan=tab, time_points=tps, integrator=integ, y0=y0, **kw)
+            return mc.steady_state(model, mc_to_scan=tab, integrator=integ, y0=y0, **kw)
         par = mode[0] == "par"
         if par and mode[1] is not None:
             # scan.* does not expose max_workers: give the pool that size through parallelise's own default
@@ -470,13 +539,13 @@ def run_scan(case: dict, mode: list, api: str = "scan", integrator: str = "euler
             multiprocessing.cpu_count = lambda: mode[1]
             try:
                 if case["kind"] == "tc":
-                    return scan.time_course(model, to_scan=tab, time_points=tps, parallel=True, integrator=integ)
-                return scan.steady_state(model, to_scan=tab, parallel=True, integrator=integ)
+                    return scan.time_course(model, to_scan=tab, time_points=tps, parallel=True, integrator=integ, y0=y0)
+                return scan.steady_state(model, to_scan=tab, parallel=True, integrator=integ, y0=y0)
             finally:
                 multiprocessing.cpu_count = orig
         if case["kind"] == "tc":
-            return scan.time_course(model, to_scan=tab, time_points=tps, parallel=par, integrator=integ)
-        return scan.steady_state(model, to_scan=tab, parallel=par, integrator=integ)
+            return scan.time_course(model, to_scan=tab, time_points=tps, parallel=par, integrator=integ, y0=y0)
+        return scan.steady_state(model, to_scan=tab, parallel=par, integrator=integ, y0=y0)
 
     try:
         with contextlib.redirect_stderr(io.StringIO()):
@@ -543,16 +612,22 @@ def _f(fid: int, a: list):
     )
 
 
-def oracle_row(spec: dict, cols: list[int], row: list[int], kind: str, tps: list[int]):
-    """What a separate simulation of a fresh model with exactly this row's values must show.
+def oracle_row(spec: dict, cols: list[int], row: list[int], kind: str, tps: list[int], y0: list | None = None):
+    """What a separate simulation of a fresh model with the scan's y0 (if any) and then exactly this row's values must show.
     -> ("crash",) | ("ok", [(t, env)]) | ("failed", [axis of a successful run])"""
     var_names = [v[0] for v in spec["vars"]]
     par_names = [p[0] for p in spec["pars"]]
     vals = dict(zip(cols, row))
-    # the model's content with the row applied
+    y0d = {k: v for k, v in (y0 or [])}
+    # the content of a fresh model: y0 written first, the row's own values on top
     content = {}
     for name, v in spec["vars"] + spec["pars"]:
-        content[name] = ["P", vals[name]] if name in vals else v
+        if name in vals:
+            content[name] = ["P", vals[name]]
+        elif name in y0d and name in var_names:
+            content[name] = ["P", y0d[name]]
+        else:
+            content[name] = v
 
     def resolve(state: dict | None, t):
         """all component values; state=None -> initial evaluation (initial values from the content)"""
@@ -656,7 +731,7 @@ def active_findings() -> set[str]:
 def judge(case: dict, got: dict) -> tuple[str | None, str | None]:
     """(violation text | None, known-finding id | None) for one scan result."""
     spec, cols, kind, tps = case["spec"], case["cols"], case["kind"], case["tps"]
-    exp = [oracle_row(spec, cols, r, kind, tps) for r in case["rows"]]
+    exp = [oracle_row(spec, cols, r, kind, tps, case.get("y0")) for r in case["rows"]]
     var_names = {sname(v[0]) for v in spec["vars"]}
     labels = case["labels"]
     dup = len(set(labels)) != len(labels)
@@ -715,7 +790,8 @@ def judge(case: dict, got: dict) -> tuple[str | None, str | None]:
                 k = 0 if c == "time" else int(c[1:])
                 if env.get(k) != v:
                     return (
-                        f"row {i} (label {lab}) t={t}: {c} = {v}, a separate simulation of a fresh model with this row's values gives {env.get(k)}",
+                        f"row {i} (label {lab if kind == 'tc' else labels[i]}) t={t}: {c} = {v}, a separate simulation of a fresh model with "
+                        f"{'y0 ' + str(case['y0']) + ' and ' if case.get('y0') else ''}this row's values gives {env.get(k)}",
                         None,
                     )
     return None, known
@@ -780,22 +856,26 @@ def coq_mode(mode: list, n: int, rng) -> str:
     return f"(Par {w}%nat {sched})"
 
 
-def coq_case(case: dict, mode: list, got: dict, rng) -> str:
+def coq_case(case: dict, mode: list, got: dict, rng, api: str = "scan") -> str:
     w = f"(WTimeCourse {clist(map(zc, case['tps']))})" if case["kind"] == "tc" else "WSteady"
     rows = clist(
         f"({zc(lab)}, {clist('(' + cn(c) + ', ' + zc(v) + ')' for c, v in zip(case['cols'], r))})"
         for lab, r in zip(case["labels"], case["rows"])
     )
-    return f"mkCase {coq_mdl(case['spec'])} {w} {coq_mode(mode, len(case['rows']), rng)} {rows} {coq_obs(case, got)}"
+    ep = {("scan", "ss"): "ScanSteadyState", ("scan", "tc"): "ScanTimeCourse", ("mc", "ss"): "McSteadyState", ("mc", "tc"): "McTimeCourse"}[
+        (api, case["kind"])
+    ]
+    y0 = "None" if case.get("y0") is None else "(Some " + clist(f"({cn(k)}, {zc(v)})" for k, v in case["y0"]) + ")"
+    return f"mkCase {coq_mdl(case['spec'])} {w} {coq_mode(mode, len(case['rows']), rng)} {rows} {coq_obs(case, got)} {ep} {y0}"
 
 
 def corr_file(cases: list[str]) -> str:
     body = ";\n  ".join(cases)
     return (
-        "From Coq Require Import List ZArith NArith.\nFrom Scan Require Import ScanGeneric ScanModel GenScanFacts ScanCorr.\n"
+        "From Coq Require Import List ZArith NArith.\nFrom Scan Require Import ScanGeneric ScanModel ScanY0 GenScanFacts ScanCorr.\n"
         "Import ListNotations.\nOpen Scope Z_scope.\n"
         "Definition cases : list case := [\n  " + body + "\n].\n"
-        "Eval vm_compute in mismatches gen_scan_facts cases.\n"
+        "Eval vm_compute in mismatches gen_scan_facts gen_entry_points cases.\n"
     )
 
 
@@ -899,7 +979,7 @@ def sweep_run(kind: str, stale: bool, tab_spec: dict, mode: list, integrator: st
             if kind == "mc.protocol":
                 return mc.protocol(model, mc_to_scan=tab, protocol=proto, time_points_per_step=2, max_workers=mw, integrator=integ)
             if kind == "mc.scan_steady_state":
-                inner = pd.DataFrame({"k": [1.0, 2.0, 3.0]})
+                inner = pd.DataFrame({"k": [1.0, 2.0, 3.0]}, index=tab_spec.get("inner_index"))
                 return mc.scan_steady_state(model, to_scan=inner, mc_to_scan=tab, max_workers=mw, integrator=integ)
             raise ValueError(kind)
 
@@ -981,12 +1061,16 @@ def sweep_compare(kind: str, got: dict, indep: list) -> str | None:
 # known findings
 # ---------------------------------------------------------------------------------------
 
-KNOWN_IDS = ("zerodiv-at-t0-crashes-scan", "duplicate-index-labels", "tc-placeholder-misses-t0")
+KNOWN_IDS = ("zerodiv-at-t0-crashes-scan", "duplicate-index-labels", "tc-placeholder-misses-t0", "cached-duplicate-labels")
 
 
 def replay_known(f: dict) -> bool:
     """True if the recorded finding still shows on the implementation."""
     w = f["witness"]
+    if w.get("kind") == "cached-dups":
+        got = _cached_scan_run(w["entry"], w["labels"], cached=True)
+        _viol, known = _cached_judge(w["entry"], w["labels"], True, got)
+        return known == f["id"]
     case = w["case"]
     got = run_scan(case, w["mode"])
     _viol, known = judge(case, got)
@@ -1012,6 +1096,21 @@ TC_T0_WITNESS2 = {"spec": _SQ_SPEC, "kind": "tc", "tps": [2, 3, 5], "cols": [10]
 DUP_WITNESS = {"spec": _SQ_SPEC, "kind": "tc", "tps": [0, 1], "cols": [10], "rows": [[0], [1], [0]], "labels": [5, 7, 5], "flavour": "plain"}
 
 
+# second round (seeded changes C09-4, C09-6): y0 together with a table column for the same variable / with a parameter assigned from
+# the initial value; steady-state tables with duplicate index labels
+_CAP_SPEC = {"vars": [[10, ["P", 10]]], "pars": [[20, ["P", 1]], [21, ["IA", 0, [10]]]], "der": [], "rxn": [[40, 3, [21, 20], [[10, -1]]]]}
+Y0_OVERLAP_WITNESS = {"spec": _CAP_SPEC, "kind": "tc", "tps": [0, 1], "cols": [10], "rows": [[1], [2], [4]], "labels": [0, 1, 2],
+                      "flavour": "ia", "y0": [[10, 5]]}
+Y0_IA_WITNESS = {"spec": _CAP_SPEC, "kind": "tc", "tps": [0, 1], "cols": [20], "rows": [[1], [2], [3]], "labels": [0, 1, 2],
+                 "flavour": "ia", "y0": [[10, 5]]}
+_FOLLOW_SPEC = {"vars": [[10, ["P", 7]]], "pars": [[20, ["P", 1]], [21, ["IA", 0, [10]]]], "der": [], "rxn": [[40, 2, [21, 10], [[10, 1]]]]}
+Y0_SS_WITNESS = {"spec": _FOLLOW_SPEC, "kind": "ss", "tps": [0, 1], "cols": [20], "rows": [[1], [2], [3]], "labels": [0, 1, 2],
+                 "flavour": "decay", "y0": [[10, 2]]}
+_DECAY_SPEC = {"vars": [[10, ["P", 0]]], "pars": [[20, ["P", 1]]], "der": [], "rxn": [[40, 2, [20, 10], [[10, 1]]]]}
+SS_DUP_WITNESS = {"spec": _DECAY_SPEC, "kind": "ss", "tps": [0, 1], "cols": [20], "rows": [[1], [2], [3], [4], [5]],
+                  "labels": [0, 1, 2, 0, 1], "flavour": "decay"}
+
+
 def check(run: Run) -> None:
     thorough = run.tier == "thorough"
     facts = gen()
@@ -1027,7 +1126,14 @@ def check(run: Run) -> None:
         "variants (incl. nested scan_steady_state) against independent Simulator runs, with the exact integrator and SciPy.  "
         "Plus: the protocol-time-course worker on 7-11 (step durations, requested points) combinations (successful vs failing run, "
         "axis against an independent oracle and against the model), and every dict-keyed entry point (scan/mc time_course, protocol, "
-        "protocol_time_course, mc.scan_steady_state) on a table with equal index labels (all rows or a visible refusal)."
+        "protocol_time_course, mc.scan_steady_state) on a table with equal index labels (all rows or a visible refusal).  "
+        "Second round (own random stream): 40% of the cases carry a y0 argument (1..all variables, preferably one that is also a table "
+        "column and one that an initial assignment reads; reference = fresh model, y0 written, then the row's values), 30% of the "
+        "steady-state cases with >= 2 rows get duplicate index labels as pd.concat gives them (positional alignment required); "
+        "steady-state scans (scan seq / one-process pool, mc) with a result cache over tables with equal and with different labels, "
+        "once and twice over the same directory, against x = k; parallelise with a cache on 12 key lists with repetitions against the "
+        "cache model; the bit-for-bit sweep also runs the three steady-state entry points on tables with duplicate labels "
+        "(for mc.scan_steady_state the inner table)."
     )
     proofs_ok = run.check_proofs(AREA, PROPS)
     run.assumptions += [
@@ -1046,18 +1152,25 @@ def check(run: Run) -> None:
         "OS scheduling is not modelled: the theorems say the result is the same for EVERY completion order and worker "
         "assignment once each task has its own copy",
         "correspondence harness: literal printer, frame canonicaliser, coqc output parser; oracle: pure-Python integer evaluator",
+        "y0: the entry point's policy (written into the model before the fan-out / handed to the worker) is read structurally from the AST "
+        "into the entry-point table; Model.update_variables(y0) is modelled as the fold of single updates (names of variables only); "
+        "`Simulator(model, y0=...)` with a completed vector is modelled for the hand-over shape only",
+        "result cache: parallel.py::_load_or_run as a pure store keyed by the row label (shape pinned, sequential behaviour compared with the "
+        "real parallelise on key lists with repetitions); the file system, pickling of results and the timing of concurrent look-ups are "
+        "not modelled -- C09_cache_any_interleaving quantifies over every set of results already on disk instead (C19 covers the files)",
     ]
 
     rng = common.rng_for(run.seed, "c09")
-    n_cases = 700 if thorough else 170
+    n_cases = 720 if thorough else 185
     par_budget = 220 if thorough else 45
     cases: list[tuple[dict, list, str]] = []
     # corpus first: the stale-assignment witness in every mode
     for mode in (["seq"], ["par", 2], ["par", 1]):
         cases.append((STALE_WITNESS, mode, "scan"))
-    for wit in (TC_T0_WITNESS, TC_T0_WITNESS2, DUP_WITNESS):
+    for wit in (TC_T0_WITNESS, TC_T0_WITNESS2, DUP_WITNESS, Y0_OVERLAP_WITNESS, Y0_IA_WITNESS, Y0_SS_WITNESS, SS_DUP_WITNESS):
         for mode, api in ((["seq"], "scan"), (["par", 2], "scan"), (["par", 3], "mc")):
             cases.append((wit, mode, api))
+    rng2 = common.rng_for(run.seed, "c09-round2")
     discarded = {"order": 0, "inexact": 0}
     tries = 0
     while len(cases) < n_cases and tries < 5 * n_cases:
@@ -1066,6 +1179,7 @@ def check(run: Run) -> None:
         if not order_is_declaration_order(c["spec"]):
             discarded["order"] += 1
             continue
+        c = decorate_case(c, rng2)
         modes: list[tuple[list, str]] = [(["seq"], "scan")]
         if par_budget > 0 and rng.random() < 0.45:
             par_budget -= 1
@@ -1086,8 +1200,16 @@ def check(run: Run) -> None:
         results.append(got)
         key = f"{c['kind']}/{c['flavour']}/{mode[0]}{mode[1] if len(mode) > 1 else ''}/{api}"
         dist[key] = dist.get(key, 0) + 1
+        if c.get("y0") is not None:
+            y0_names = {k for k, _v in c["y0"]}
+            ia_reads = {a for _n, v in c["spec"]["vars"] + c["spec"]["pars"] if v[0] == "IA" for a in v[2]}
+            for tag, hit in (("y0", True), ("y0:overlaps-column", bool(y0_names & set(c["cols"]))), ("y0:read-by-assignment", bool(y0_names & ia_reads))):
+                if hit:
+                    dist[tag] = dist.get(tag, 0) + 1
+        if c["kind"] == "ss" and len(set(c["labels"])) != len(c["labels"]):
+            dist["ss:duplicate-labels"] = dist.get("ss:duplicate-labels", 0) + 1
         try:
-            exp_kinds = [oracle_row(c["spec"], c["cols"], r, c["kind"], c["tps"])[0] for r in c["rows"]]
+            exp_kinds = [oracle_row(c["spec"], c["cols"], r, c["kind"], c["tps"], c.get("y0"))[0] for r in c["rows"]]
             viol, known = judge(c, got)
         except _Inexact:
             discarded["inexact"] += 1
@@ -1107,7 +1229,7 @@ def check(run: Run) -> None:
             discarded["inexact"] += 1
             continue
         try:
-            coq_cases.append(coq_case(c, mode, got, rng))
+            coq_cases.append(coq_case(c, mode, got, rng, api))
             case_of.append(idx)
         except ValueError:
             discarded["inexact"] += 1
@@ -1143,6 +1265,9 @@ def check(run: Run) -> None:
 
     # every dict-keyed entry point on a table with equal index labels: all rows, or a visible refusal
     _dup_entry_points(run)
+
+    # result cache keyed by row label: steady-state scans with duplicate labels and a cache; the pure cache model vs parallelise
+    _cached_scans(run, rng2)
 
     # schedule sweep, bit for bit
     _sweep(run, thorough, rng)
@@ -1392,6 +1517,146 @@ def _ptc_axes(run: Run, thorough: bool) -> None:
     run.coverage["ptc_axis_known_finding_shapes_met"] = met
 
 
+CACHED_ENTRIES = ("scan.steady_state seq", "scan.steady_state par1", "mc.steady_state par1")
+CACHED_LABELS = ([0, 1, 2, 0, 1], [3, 3, 3], [4, 2, 9, 7, 5])
+
+
+def _cached_scan_run(entry: str, labels: list[int], cached: bool, twice: bool = False) -> dict:
+    """x' = k - x scanned over k = 1..n under the given row labels, with a fresh cache directory (or none);
+    -> {"x": [...]} | {"refused": msg} | {"raises": ...}.  One worker process at most: deterministic."""
+    import multiprocessing
+    import shutil
+
+    import pandas as pd
+
+    from mxlpy import Model, mc, scan
+    from mxlpy.parallel import Cache
+
+    from harness import c09_fns as F
+    from harness.c09_integ import ExactEuler
+
+    def mk():
+        m = Model()
+        m.add_variable("x", 0.0)
+        m.add_parameter("k", 1.0)
+        m.add_reaction("v", fn=F.g_sub, args=["k", "x"], stoichiometry={"x": 1.0})
+        return m
+
+    tab = pd.DataFrame({"k": [float(i + 1) for i in range(len(labels))]}, index=list(labels))
+    d = common.scratch_dir("c09cache")
+    shutil.rmtree(d, ignore_errors=True)
+    cache = Cache(tmp_dir=d) if cached else None
+    orig = multiprocessing.cpu_count
+    multiprocessing.cpu_count = lambda: 1
+
+    def go():
+        if entry == "scan.steady_state seq":
+            return scan.steady_state(mk(), to_scan=tab, parallel=False, cache=cache, integrator=ExactEuler)
+        if entry == "scan.steady_state par1":
+            return scan.steady_state(mk(), to_scan=tab, parallel=True, cache=cache, integrator=ExactEuler)
+        if entry == "mc.steady_state par1":
+            return mc.steady_state(mk(), mc_to_scan=tab, max_workers=1, cache=cache, integrator=ExactEuler)
+        raise ValueError(entry)
+
+    try:
+        with contextlib.redirect_stderr(io.StringIO()):
+            res = _with_timeout(go, 120)
+            if twice:  # a second run over the same directory: everything comes from disk
+                res = _with_timeout(go, 120)
+            xs = _with_timeout(lambda: res.variables["x"].tolist(), 120)
+        return {"x": [_num(v) for v in xs]}
+    except _Timeout:
+        return {"raises": "Timeout"}
+    except ValueError as e:
+        if "duplicate index labels" in str(e):
+            return {"refused": str(e)[:160]}
+        return {"raises": f"ValueError: {e}"[:200]}
+    except Exception as e:  # noqa: BLE001
+        return {"raises": f"{type(e).__name__}: {e}"[:200]}
+    finally:
+        multiprocessing.cpu_count = orig
+        shutil.rmtree(d, ignore_errors=True)
+
+
+def _cached_judge(entry: str, labels: list[int], cached: bool, got: dict) -> tuple[str | None, str | None]:
+    """independent oracle: the steady state of x' = k - x is x = k, so line i must show i + 1 -- with or without a cache"""
+    dup = len(set(labels)) != len(labels)
+    if "refused" in got:
+        if cached and dup:
+            return None, None  # the visible refusal of a table whose labels cannot name the cache files
+        return f"{entry}: table with labels {labels} refused ({got['refused']}) although {'no cache is used' if not cached else 'the labels are pairwise different'}", None
+    if "raises" in got:
+        return f"{entry} with labels {labels}{' and a cache' if cached else ''} raised {got['raises']}", None
+    want = [i + 1 for i in range(len(labels))]
+    if got["x"] != want:
+        if cached and dup and "cached-duplicate-labels" in active_findings():
+            return None, "cached-duplicate-labels"
+        return (
+            f"{entry} over k = {want} under the row labels {labels}{' with a result cache' if cached else ''}: steady states x = {got['x']}, "
+            f"separate runs give {want}" + (" (rows with equal labels share one cache file)" if cached and dup else ""),
+            None,
+        )
+    return None, None
+
+
+def _c09_cache_fn(x: int) -> int:
+    return x * x + 1
+
+
+def _cached_scans(run: Run, rng2) -> None:
+    import shutil
+
+    from mxlpy.parallel import Cache, parallelise
+
+    outcome: dict[str, str] = {}
+    n_viol = 0
+    for entry in CACHED_ENTRIES:
+        for labels in CACHED_LABELS:
+            for cached, twice in ((True, False), (True, True), (False, False)):
+                got = _cached_scan_run(entry, labels, cached, twice)
+                run.count_case(("cached-scan", entry, tuple(labels), cached, twice), nontrivial=True)
+                viol, known = _cached_judge(entry, labels, cached, got)
+                outcome[f"{entry} {labels} cache={cached}{' x2' if twice else ''}"] = (
+                    "refused" if "refused" in got else "known-finding" if known else "violation" if viol else "as independent runs"
+                )
+                if viol and n_viol < 3:
+                    n_viol += 1
+                    run.violation(viol, {"kind": "cached-scan", "entry": entry, "labels": labels, "cached": cached, "twice": twice})
+    run.coverage["cached_scans"] = outcome
+    # the pure cache model against the real parallelise (sequential, fresh directory, integer keys with repetitions)
+    obs = []
+    for _ in range(12):
+        n = rng2.randint(1, 7)
+        keys = [rng2.randint(0, 3) for _ in range(n)] if rng2.random() < 0.7 else rng2.sample(range(10), n)
+        inputs = [(k, rng2.randint(-9, 9)) for k in keys]
+        d = common.scratch_dir("c09cache")
+        shutil.rmtree(d, ignore_errors=True)
+        try:
+            with contextlib.redirect_stderr(io.StringIO()):
+                res = parallelise(_c09_cache_fn, inputs, cache=Cache(tmp_dir=d), parallel=False, disable_tqdm=True)
+        except Exception as e:  # noqa: BLE001
+            run.broken_correspondence.append(f"parallelise with a cache raised on {inputs}: {type(e).__name__}: {e}")
+            continue
+        finally:
+            shutil.rmtree(d, ignore_errors=True)
+        run.count_case(("cache-corr", tuple(inputs)))
+        obs.append((inputs, [(int(k), int(v)) for k, v in res]))
+    zp = lambda l: clist(f"({zc(a)}, {zc(b)})" for a, b in l)  # noqa: E731
+    text = (
+        "From Coq Require Import List ZArith.\nFrom Scan Require Import ScanY0 ScanCorr.\nImport ListNotations.\nOpen Scope Z_scope.\n"
+        "Definition obs : list (list (Z * Z) * list (Z * Z)) := " + clist(f"({zp(i)}, {zp(o)})" for i, o in obs) + ".\n"
+        "Eval vm_compute in cache_mismatches obs.\n"
+    )
+    res = common.coq_eval_many(AREA, {"c09_cache": text}, timeout_s=300)
+    ok, out = res["c09_cache"]
+    lists = common.parse_eval_list(out) if ok else None
+    if not ok or lists is None or not lists:
+        run.broken_correspondence.append(f"cache shard did not evaluate: {out[-300:]}")
+    elif lists[-1]:
+        run.broken_correspondence.append(f"result cache: model and parallelise disagree on {[obs[j] for j in lists[-1]]}")
+    run.coverage["cache_model_cases"] = len(obs)
+
+
 def _sweep(run: Run, thorough: bool, rng) -> None:
     kinds = ["steady_state", "time_course", "protocol", "protocol_time_course", "mc.steady_state", "mc.time_course",
              "mc.protocol", "mc.scan_steady_state"]
@@ -1405,12 +1670,20 @@ def _sweep(run: Run, thorough: bool, rng) -> None:
             {"data": {"x": [2.0]}},
             {"data": {"p": [1.0, 3.0], "y": [1.0, 2.0]}},
         ]
+    # steady-state scans are positional: tables glued with pd.concat (duplicate index labels) are legal; for the nested MC scan
+    # the INNER table carries the duplicates (its outer container is keyed by label and tested)
+    dup_tables = {
+        "steady_state": {"data": {"k": [1.0, 2.0, 3.0, 3.0, 1.0], "x": [1.0, 2.0, 3.0, 1.0, 2.0]}, "index": [0, 1, 2, 0, 1]},
+        "mc.steady_state": {"data": {"x": [1.0, 2.0, 3.0, 4.0]}, "index": [7, 7, 7, 7]},
+        "mc.scan_steady_state": {"data": {"x": [1.0, 2.0]}, "inner_index": [0, 1, 0]},
+    }
     n = 0
     viol = 0
     for kind in kinds:
-        for ti, tab in enumerate(tables):
+        for ti, tab in enumerate(tables + ([dup_tables[kind]] if kind in dup_tables else [])):
+            is_dup = ti >= len(tables)
             for stale in (True, False) if (thorough or ti == 0) else (True,):
-                for integ in ("euler", "scipy") if (thorough or kind in ("time_course", "steady_state")) and ti <= 1 else ("euler",):
+                for integ in ("euler", "scipy") if (thorough or kind in ("time_course", "steady_state")) and (ti <= 1 or is_dup) else ("euler",):
                     try:
                         indep = sweep_independent(kind, stale, tab, integ)
                     except Exception as e:  # noqa: BLE001
@@ -1450,6 +1723,12 @@ def replay(rep: dict) -> int:
         bad = sweep_compare(r["scan"], got, indep)
         print("oracle:", bad or "property holds on this input")
         return 1 if bad else 0
+    if k == "cached-scan":
+        got = _cached_scan_run(r["entry"], r["labels"], r["cached"], r.get("twice", False))
+        viol, known = _cached_judge(r["entry"], r["labels"], r["cached"], got)
+        print("observed:", got)
+        print("oracle:", viol or ("known finding " + known if known else "property holds on this input"))
+        return 1 if viol else 0
     if k == "dup-entry":
         got = _dup_entry_point_run(r["entry"])
         viol, known = _dup_judge(r["entry"], got)
